@@ -85,6 +85,56 @@ def _is_ctor(c: ast.Call, name: str) -> bool:
     return (isinstance(f, ast.Name) and f.id == name) or (isinstance(f, ast.Attribute) and f.attr == name)
 
 
+class _Bound(dict):  # type: ignore[type-arg]
+    """param -> argument expression; asking for a parameter that star arguments may have bound is Undecided."""
+    call: T.Optional[ast.Call] = None
+
+    def get(self, k: str, default: T.Any = None) -> T.Any:
+        if k in self:
+            return self[k]
+        if '*' in self or '**' in self:
+            raise Undecided(f'`{short(self.call, 70)}`: parameter `{k}` may be bound by star arguments')
+        return default
+
+
+def _bound(mod: Module, c: ast.Call, qn: str, implicit_first: bool = True) -> _Bound:
+    """Arguments of a call bound by the signature of the repository function `qn` of `mod`."""
+    b = _Bound(L.bind_call(c, mod.func(qn), implicit_first) or {})
+    b.call = c
+    return b
+
+
+def _elem_args(mod: Module, c: ast.Call) -> _Bound:
+    return _bound(mod, c, f'{ELEMENT}.__init__')
+
+
+def _passes(mod: Module, c: ast.Call, qn: str, var: str, param_index: int = 0) -> bool:
+    """Does call `c` pass the local `var` as the parameter number `param_index` of repository function `qn`?"""
+    ps = _param_names(mod.func(qn))
+    b = L.bind_call(c, mod.func(qn), True)
+    if b is None or param_index >= len(ps):
+        return False
+    v = dict.get(b, ps[param_index])
+    return isinstance(v, ast.Name) and v.id == var
+
+
+def _absence_provable(info: L.FnInfo, what: str, param: T.Optional[str] = None, ignore: T.Iterable[str] = ()) -> None:
+    """An obligation was not found in `info` at all.  That is a finding only if nothing in the function could discharge it in a form
+    the rule does not read: a call to a helper of the same class / module, or a method call on the tracked parameter.  Otherwise Undecided."""
+    ign = set(ignore)
+    for n in info.cfg.nodes:
+        for c in L.node_calls(n):
+            cn = call_name(c) or ''
+            if cn in ign:
+                continue
+            passed = {a.id for a in list(c.args) + [k.value for k in c.keywords] if isinstance(a, ast.Name)}
+            hide = (cn.startswith(('self.', 'cls.')) and cn.count('.') == 1) or \
+                (isinstance(c.func, ast.Name) and info.mod.has_func(c.func.id) and bool(passed & ({'self'} | ({param} if param else set())))) or \
+                (param is not None and cn.startswith(param + '.') and cn.count('.') == 1)
+            if hide:
+                raise Undecided(f'{info.qn}: {what} not found, but `{short(c, 60)}` may do it in a form the rule does not read')
+
+
 def _dominates_exit(info: L.FnInfo, nodes: T.List[Node]) -> bool:
     return bool(nodes) and info.cfg.exit_return.id not in info.reach(info.cfg.entry, nodes)
 
@@ -106,8 +156,9 @@ def r1(ctx: RuleCtx) -> None:
     # the registration chain: NinjaBackend.add_build -> NinjaBuild.add_build -> check_outputs + build_elements -> write
     ab = infos.get(f'{BACKEND}.add_build')
     p = _param_names(ab.fn)
-    fwd = [n for n in ab.cfg.nodes if any(call_name(c) == 'self.ninja.add_build' and c.args and isinstance(c.args[0], ast.Name)
-                                          and p and c.args[0].id == p[0] for c in L.node_calls(n))]
+    fwd = [n for n in ab.cfg.nodes if any(call_name(c) == 'self.ninja.add_build' and p and _passes(mod, c, 'NinjaBuild.add_build', p[0]) for c in L.node_calls(n))]
+    if not fwd:
+        _absence_provable(ab, 'the call that forwards the element to self.ninja.add_build', p[0] if p else None)
     ctx.require(_dominates_exit(ab, fwd) and not ab.defs().get(p[0] if p else '', []),
                 'NinjaBackend.add_build forwards its element to self.ninja.add_build on every path', mod, f'{BACKEND}.add_build', ab.fn,
                 'NinjaBackend.add_build does not hand its parameter to self.ninja.add_build on every path: elements passed to it are lost')
@@ -126,6 +177,10 @@ def r1(ctx: RuleCtx) -> None:
     chk = [n for n in nb.cfg.nodes if any(call_name(c) == f'{bp[0]}.check_outputs' for c in L.node_calls(n))]
     app = [n for n in nb.cfg.nodes if any(call_name(c) == 'self.build_elements.append' and c.args and isinstance(c.args[0], ast.Name)
                                           and c.args[0].id == bp[0] for c in L.node_calls(n))]
+    if not chk:
+        _absence_provable(nb, 'the call of check_outputs() on the element', bp[0])
+    if not app:
+        _absence_provable(nb, 'the append of the element to build_elements', bp[0], ignore=[f'{bp[0]}.check_outputs'])
     ctx.require(_dominates_exit(nb, chk) and not nb.defs().get(bp[0], []), 'NinjaBuild.add_build calls check_outputs() of the element on every path', mod,
                 'NinjaBuild.add_build', f'{bp[0]}.check_outputs()',
                 'NinjaBuild.add_build can return without calling check_outputs() on the element: its outputs are never entered in the registry')
@@ -151,8 +206,7 @@ def r1(ctx: RuleCtx) -> None:
         tv = ln.ast.target  # type: ignore[union-attr]
         if not isinstance(tv, ast.Name):
             continue
-        wn = [n for n in wr.cfg.nodes if any(call_name(c) == f'{tv.id}.write' and c.args and isinstance(c.args[0], ast.Name) and wp and c.args[0].id == wp[0]
-                                             for c in L.node_calls(n))]
+        wn = [n for n in wr.cfg.nodes if any(call_name(c) == f'{tv.id}.write' and wp and _passes(mod, c, f'{ELEMENT}.write', wp[0]) for c in L.node_calls(n))]
         if not wn:
             continue
         body_starts = [wr.cfg.nodes[b] for b, lab in wr.cfg.succ[ln.id] if lab == 'iter']
@@ -165,8 +219,11 @@ def r1(ctx: RuleCtx) -> None:
                 esc = True
         if not esc:
             okw = True
+    if not okw and not any(isinstance(ln.ast.target, ast.Name) and any(call_name(c) == f'{ln.ast.target.id}.write' for n in wr.cfg.nodes for c in L.node_calls(n))  # type: ignore[union-attr]
+                           for ln in loops):
+        raise Undecided('NinjaBuild.write: no loop over build_elements that calls write() on its variable was recognised')
     ctx.require(okw, 'NinjaBuild.write calls write(outfile) on every element of build_elements', mod, 'NinjaBuild.write', wr.fn,
-                'NinjaBuild.write has no loop over build_elements that writes every element')
+                'NinjaBuild.write: an iteration of the loop over build_elements can finish without calling write(outfile) on the element')
 
     # creation sites
     funcs = _backend_funcs(mod)
@@ -246,7 +303,7 @@ def r2a(ctx: RuleCtx) -> None:
             if not _is_ctor(c, ELEMENT):
                 continue
             n += 1
-            first = c.args[0] if c.args else kwarg(c, 'all_outputs')
+            first = _elem_args(mod, c).get(_param_names(mod.func(f'{ELEMENT}.__init__'))[0])
             ctx.require(first is not None and attr_chain(first) == 'self.all_outputs', f'{q}: {short(c, 70)} uses the shared registry', mod, q, c,
                         f'the registry argument is `{short(first, 40)}`, not self.all_outputs: outputs of this statement are checked against a different set', c)
     ctx.floor('constructions checked for the registry argument', n, 36)
@@ -275,10 +332,13 @@ def r2a(ctx: RuleCtx) -> None:
                 return 'rebind', par
             if isinstance(par, ast.Attribute) and isinstance(pm.get(par), ast.Call) and pm[par].func is par:  # type: ignore[union-attr]
                 return ('mutate' if par.attr in SET_MUT else 'method:' + par.attr), par
-            if isinstance(par, ast.Call) and node in par.args:
-                return ('ctor-arg' if _is_ctor(par, ELEMENT) and par.args and par.args[0] is node else 'escape'), par
-            if isinstance(par, ast.keyword):
-                return 'escape', par
+            call_par = par if isinstance(par, ast.Call) and node in par.args else (pm.get(par) if isinstance(par, ast.keyword) else None)
+            if isinstance(call_par, ast.Call):
+                if _is_ctor(call_par, ELEMENT) and rel == NB:
+                    b = L.bind_call(call_par, m2.func(f'{ELEMENT}.__init__'), True)
+                    if b is not None and b.get(_param_names(m2.func(f'{ELEMENT}.__init__'))[0]) is node:
+                        return 'ctor-arg', call_par
+                return 'escape', call_par
             if isinstance(par, ast.Compare) and node in par.comparators and all(isinstance(o, (ast.In, ast.NotIn)) for o in par.ops):
                 return 'membership', par
             if isinstance(par, (ast.Assign, ast.AnnAssign)) and par.value is node:
@@ -373,6 +433,8 @@ def r2b(ctx: RuleCtx) -> None:
         if cfg.exit_raise.id not in r:
             continue
         guards.append(n)
+    if not guards:
+        _absence_provable(info, 'a raising test on self.output_errors')
     bad = [w for w in writes if not guards or not cfg.dominated_by_any(w, guards)]
     # the guard must also be passed before a normal return (an element with errors never completes silently)
     silent = not guards or cfg.exit_return.id in info.reach(cfg.entry, guards)
@@ -604,8 +666,15 @@ def r2d(ctx: RuleCtx) -> None:
     for ln, v, adds in loops:
         registered |= L.self_fields(trc.origins(ln.ast.iter, ln))  # type: ignore[union-attr]
     registered.discard('all_outputs')
+    if not loops:
+        raise Undecided('check_outputs: no registering loop recognised (R2c decides whether anything is registered at all)')
+    # the registered set is complete only if nothing else in check_outputs can insert names
+    other = [cl for n in c.cfg.nodes for cl in L.node_calls(n) if (call_name(cl) or '').startswith('self.') and (call_name(cl) or '').count('.') == 1]
+    closed = not other
     ctx.note(f'write() emits left of the colon: {sorted(emitted)}; check_outputs registers: {sorted(registered)}')
     for f in sorted(emitted):
+        if f not in registered and not closed:
+            raise Undecided(f'check_outputs: field {f} is not registered by a recognised loop, but `{short(other[0], 50)}` may register it')
         ctx.require(f in registered, f'field {f} (written as `{emitted[f]}` before the colon) is registered by check_outputs', mod, f'{ELEMENT}.check_outputs',
                     f'self.{f}', f'write() emits self.{f} as an output of the build statement (`{emitted[f]}` left of the colon) but check_outputs never inserts '
                     f'it into self.all_outputs (registered: {sorted(registered)}): two statements may produce the same {f} entry without "Multiple producers"',
@@ -620,10 +689,8 @@ def r2d(ctx: RuleCtx) -> None:
 # ----------------------------------------------------------------------------
 # R3  rule closure
 # ----------------------------------------------------------------------------
-def _rule_arg(c: ast.Call, pos: int, kw: str) -> T.Optional[ast.AST]:
-    if len(c.args) > pos and not any(isinstance(a, ast.Starred) for a in c.args[:pos + 1]):
-        return c.args[pos]
-    return kwarg(c, kw)
+def _rule_arg(mod: Module, c: ast.Call, qn: str, kw: str) -> T.Optional[ast.AST]:
+    return _bound(mod, c, qn).get(kw)
 
 
 def r3(ctx: RuleCtx) -> None:
@@ -662,7 +729,7 @@ def r3(ctx: RuleCtx) -> None:
                 continue
             if res.status == 'returned':
                 raise Undecided(f'{q}: a NinjaRule is returned to the caller')
-            e = _rule_arg(c, rpos, 'rule')
+            e = _rule_arg(mod, c, 'NinjaRule.__init__', 'rule')
             if e is None:
                 raise Undecided(f'{q}: `{short(c, 60)}` has no rule-name argument')
             shs = ev.site(q, e, c)
@@ -673,14 +740,17 @@ def r3(ctx: RuleCtx) -> None:
     # the chain add_rule -> ruledict[rule.name]
     ar = infos.get(f'{BACKEND}.add_rule')
     rp = _param_names(ar.fn)
-    fwd = [n for n in ar.cfg.nodes if any(call_name(c) == 'self.ninja.add_rule' and c.args and isinstance(c.args[0], ast.Name) and rp and c.args[0].id == rp[0]
-                                          for c in L.node_calls(n))]
+    fwd = [n for n in ar.cfg.nodes if any(call_name(c) == 'self.ninja.add_rule' and rp and _passes(mod, c, 'NinjaBuild.add_rule', rp[0]) for c in L.node_calls(n))]
     nar = infos.get('NinjaBuild.add_rule')
     np_ = _param_names(nar.fn)
     st_nodes = [n for n in nar.cfg.nodes if n.kind == 'stmt' and isinstance(n.ast, ast.Assign) and any(
         isinstance(t, ast.Subscript) and attr_chain(t.value) == 'self.ruledict' and np_ and norm(t.slice) == f'{np_[0]}.name' for t in n.ast.targets)
         and isinstance(n.ast.value, ast.Name) and n.ast.value.id == np_[0]]
     app = [n for n in nar.cfg.nodes if any(call_name(c) == 'self.rules.append' and c.args and norm(c.args[0]) == (np_[0] if np_ else '') for c in L.node_calls(n))]
+    if not fwd:
+        _absence_provable(ar, 'the call that forwards the rule to self.ninja.add_rule', rp[0] if rp else None)
+    if not st_nodes or not app:
+        _absence_provable(nar, 'the store of the rule into ruledict / rules', np_[0] if np_ else None)
     ctx.require(_dominates_exit(ar, fwd) and _dominates_exit(nar, st_nodes) and _dominates_exit(nar, app),
                 'add_rule -> NinjaBuild.add_rule stores the rule under ruledict[rule.name] and in rules on every normal path', mod, 'NinjaBuild.add_rule', nar.fn,
                 'a rule passed to add_rule can fail to reach ruledict[rule.name] / rules: build statements naming it reference an undefined rule')
@@ -690,7 +760,7 @@ def r3(ctx: RuleCtx) -> None:
     for q, f in funcs.items():
         for c in _own_calls(f):
             if _is_ctor(c, ELEMENT):
-                e = _rule_arg(c, epos, 'rulename')
+                e = _rule_arg(mod, c, f'{ELEMENT}.__init__', 'rulename')
                 if e is None:
                     raise Undecided(f'{q}: `{short(c, 60)}` has no rulename argument')
                 uses.append((q, e, c))
@@ -699,10 +769,15 @@ def r3(ctx: RuleCtx) -> None:
                 for t in st.targets:
                     if isinstance(t, ast.Attribute) and t.attr == 'rulename':
                         uses.append((q, st.value, st))
+    # the set of definitions is closed only if no NinjaRule is built where this rule does not look
+    elsewhere = [q for q, f in mod.funcs().items() if not q.startswith(BACKEND + '.') and not q.startswith('NinjaRule.')
+                 and any(_is_ctor(c, 'NinjaRule') or call_method(c) == 'add_rule' for c in _own_calls(f)) and q != 'NinjaBuild.add_rule']
     nuse = 0
     for q, e, anchor in uses:
         shs = ev.site(q, e, anchor)
         missing = sorted(L.show(s) for s in shs if s != ('phony',) and s not in defined)
+        if missing and elsewhere:
+            raise Undecided(f'{q}: rule name(s) {missing} are not among the definitions found in {BACKEND}, but {elsewhere} also create or add rules')
         nuse += 1
         ctx.require(not missing, f'{q}: rule `{short(e, 40)}` = {sorted(L.show(s) for s in shs)} is defined', mod, q, anchor if isinstance(anchor, ast.Call) else norm(anchor),
                     f'build statement uses rule name(s) {missing} (from `{short(e, 50)}`) that no add_rule(NinjaRule(...)) defines; defined shapes: '
@@ -872,6 +947,12 @@ def r3b(ctx: RuleCtx) -> None:
     rules_w = [n for n in bw.cfg.nodes if n.kind == 'iter' and 'rules' in L.self_fields(L.Tracer(bw).origins(n.ast.iter, n))]  # type: ignore[union-attr]
     cnt_loops = [n for n in bw.cfg.nodes if n.kind == 'iter' and 'build_elements' in L.self_fields(L.Tracer(bw).origins(n.ast.iter, n))  # type: ignore[union-attr]
                  and any(c.id in bw.cfg.reachable([n], [], edge_ok=lambda a, b, lab: not (a.id == n.id and lab == 'done')) for c in cnt)]
+    if not cnt or not rules_w or not cnt_loops:
+        _absence_provable(bw, 'the loop that counts rule references / the loop that writes the rules')
+        if rules_w and not cnt:
+            pass        # rules are written and nothing counts references: a finding (below)
+        else:
+            raise Undecided('NinjaBuild.write: the counting loop or the rule-writing loop was not recognised')
     okb = bool(cnt) and bool(rules_w) and bool(cnt_loops) and all(
         bw.cfg.dominated_by_any(rwn, cnt_loops) and not any(rwn.id in bw.cfg.reachable([cl], [], edge_ok=lambda a, b, lab, cl=cl: not (a.id == cl.id and lab == 'done'))
                                                              for cl in cnt_loops) for rwn in rules_w)
@@ -934,23 +1015,34 @@ def r4(ctx: RuleCtx) -> None:
     for x in outer.ast.iter.elts:  # type: ignore[union-attr]
         got[x.elts[0].value] = _source_of(x.elts[1]) or ('?', norm(x.elts[1]))
     for name, want in AGGREGATES.items():
+        if name not in got:
+            raise Undecided(f'generate_ending: the aggregate table has no constant row `{name}` (built elsewhere?)')
+        if got[name][0] == '?':
+            raise Undecided(f'generate_ending: aggregate `{name}` is fed from `{short(got[name][1], 60)}`, a source the rule does not read')
         ctx.require(got.get(name) == want, f'aggregate {name} is fed from {want[0]}({"benchmark=" + str(want[1]) if want[1] is not None else ""})', mod, qn,
                     f'aggregate {name}', f'aggregate `{name}` is fed from {got.get(name)}; the property requires {want}', outer.ast)
     # the element: outputs = name variable, rule phony, inputs = list filled in the inner loop
-    elems = [c for c in _own_calls(info.fn) if _is_ctor(c, ELEMENT) and len(c.args) >= 4 and isinstance(c.args[1], ast.Name) and c.args[1].id == nvar]
+    elems = [c for c in _own_calls(info.fn) if _is_ctor(c, ELEMENT) and isinstance(_elem_args(mod, c).get('outfilenames'), ast.Name)
+             and _elem_args(mod, c)['outfilenames'].id == nvar]  # type: ignore[attr-defined]
     if len(elems) != 1:
         raise Undecided(f'generate_ending: {len(elems)} elements named by the table variable')
     el = elems[0]
+    ea = _elem_args(mod, el)
     en = info.node_of(el)
-    ctx.require(isinstance(el.args[2], ast.Constant) and el.args[2].value == 'phony', 'the aggregates are phony statements', mod, qn, el,
-                f'aggregate statement uses rule {norm(el.args[2])}, not phony', el)
-    if not isinstance(el.args[3], ast.Name):
+    rule_e = L.inline_locals(info, ea['rulename'], en) if 'rulename' in ea else None
+    ctx.require(isinstance(rule_e, ast.Constant) and rule_e.value == 'phony', 'the aggregates are phony statements', mod, qn, el,
+                f'aggregate statement uses rule {norm(rule_e)}, not phony', el)
+    if not isinstance(ea.get('infilenames'), ast.Name):
         raise Undecided('generate_ending: aggregate inputs are not a local list')
-    lst = el.args[3].id
+    lst = ea['infilenames'].id  # type: ignore[attr-defined]
     # list is (re)initialised empty inside the outer loop
     ldefs = info.reaching(lst, en)
     fresh = len(ldefs) == 1 and isinstance(ldefs[0], L.Def) and isinstance(ldefs[0].value, ast.List) and not ldefs[0].value.elts and \
         outer.id in info.reach(ldefs[0].node) and ldefs[0].node.id in cfg.reachable([cfg.nodes[b] for b, lab in cfg.succ[outer.id] if lab == 'iter'], [outer], include_start=True)
+    in_outer = cfg.reachable([cfg.nodes[b] for b, lab in cfg.succ[outer.id] if lab == 'iter'], [outer], include_start=True)
+    stale = [d for d in ldefs if not isinstance(d, L.Def) or d.node.id not in in_outer]
+    if not fresh and not stale:
+        raise Undecided(f'generate_ending: `{lst}` is created inside the table loop, but not as one empty list display')
     ctx.require(fresh, f'the input list `{lst}` starts empty for each aggregate', mod, qn, f'{lst} = []',
                 f'the input list `{lst}` of the aggregate statement is not re-created empty inside the table loop: aggregates would share inputs', el)
     inner = [n for n in cfg.nodes if n.kind == 'iter' and isinstance(n.ast.iter, ast.Name) and n.ast.iter.id == dvar and isinstance(n.ast.target, ast.Name)]  # type: ignore[union-attr]
@@ -1016,7 +1108,9 @@ def r4(ctx: RuleCtx) -> None:
     ctx.require(not esc, 'every target of the row contributes its first output (no iteration skips the append)', mod, qn, f'{lst}.append(first output)',
                 f'an iteration of the loop over `{dvar}` can end without appending the first output of `{tv}` to `{lst}`: that target is not reachable from the aggregate', il.ast)
     after = en.id in info.reach(il, []) and not (il.id in cfg.reachable([en], [outer]))
-    ctx.require(after, 'the aggregate statement is created after the loop over its targets', mod, qn, el, 'the aggregate statement is created inside/before the loop that fills its inputs', el)
+    if not after:
+        raise Undecided('generate_ending: the aggregate statement is not created straight after the loop over its targets')
+    ctx.ok('the aggregate statement is created after the loop over its targets')
 
     # the sources
     bk = ctx.repo.module(BK)
@@ -1028,7 +1122,15 @@ def r4(ctx: RuleCtx) -> None:
         gen = dc.generators[0]
         if len(dc.generators) == 1 and isinstance(gen.target, ast.Tuple) and len(gen.target.elts) == 2 and norm(gen.iter) == 'self.build.targets.items()':
             k, v = (norm(x) for x in gen.target.elts)
-            okd = norm(dc.key) == k and norm(dc.value) == v and [norm(c) for c in gen.ifs] == [f'{v}.build_by_default']
+            if not (norm(dc.key) == k and norm(dc.value) == v):
+                raise Undecided('get_build_by_default_targets: the comprehension does not map key to value unchanged')
+            okd = [norm(c) for c in gen.ifs] == [f'{v}.build_by_default']
+            if not okd and not gen.ifs:
+                okd = False      # no filter at all is a positive finding too: everything would be built by default
+            elif not okd and not all(f'{v}.build_by_default' in norm(c) for c in gen.ifs) and len(gen.ifs) == 1 and f'{v}.' not in norm(gen.ifs[0]):
+                raise Undecided(f'get_build_by_default_targets: filter `{short(gen.ifs[0], 60)}` is not about the target')
+        else:
+            raise Undecided('get_build_by_default_targets does not iterate self.build.targets.items() in one comprehension')
     else:
         raise Undecided('get_build_by_default_targets is not a single dict comprehension')
     ctx.require(okd, 'get_build_by_default_targets = every target of build.targets with build_by_default', bk, 'Backend.get_build_by_default_targets', g,
@@ -1090,7 +1192,11 @@ def r4(ctx: RuleCtx) -> None:
                     for f in ys:
                         if f'attr:{tvn}.{f}' in org:
                             ys[f] += 1
+    delegating = [short(x, 50) for n in ti.cfg.nodes for r in L.node_roots(n) for x in walk_no_nested(r)
+                  if isinstance(x, ast.YieldFrom) or (isinstance(x, ast.Call) and any(isinstance(a, ast.Name) and a.id == tvn for a in x.args) and call_name(x) != 'isinstance')]
     for f, cnt in ys.items():
+        if cnt == 0 and delegating:
+            raise Undecided(f'get_testlike_targets: nothing yielded flows from {tvn}.{f} directly, but `{delegating[0]}` may yield it')
         ctx.require(cnt > 0, f'get_testlike_targets yields targets taken from {tvn}.{f}', bk, 'Backend.get_testlike_targets', f'{tvn}.{f}',
                     f'no yielded value of get_testlike_targets flows from `{tvn}.{f}`: targets a test {"runs" if f == "exe" else "uses as " + f} are not prerequisites of `test`', t)
     _testlike_exhaustive(ctx, bk, t, ti, ln, tvn)
@@ -1298,8 +1404,10 @@ def r5(ctx: RuleCtx) -> None:
     key = [t for t in sn.ast.targets if isinstance(t, ast.Subscript)][0].slice  # type: ignore[union-attr]
     ctx.require(isinstance(sn.ast.value, ast.Name) and len(ps) > 1 and sn.ast.value.id == ps[1], 'add_target stores the target object it was given', im, qn, sn.ast,  # type: ignore[union-attr]
                 'the value stored in self.build.targets is not the target parameter', sn.ast)
-    val = [n for n in cfg.nodes if any(call_name(c) == 'self.validate_forbidden_targets' and c.args and isinstance(c.args[0], ast.Name) and c.args[0].id == ps[0]
+    val = [n for n in cfg.nodes if any(call_name(c) == 'self.validate_forbidden_targets' and _passes(im, c, 'Interpreter.validate_forbidden_targets', ps[0])
                                        for c in L.node_calls(n))]
+    if not val:
+        _absence_provable(info, 'the call of validate_forbidden_targets on the target name', ignore=['self.validate_build_subdir', 'self.add_languages', 'self.add_stdlib_info'])
     ctx.require(bool(val) and cfg.dominated_by_any(sn, val) and not info.defs().get(ps[0], []), 'validate_forbidden_targets(name, ...) dominates the store into build.targets', im, qn,
                 'self.validate_forbidden_targets(name, ...)',
                 'a path of add_target reaches `self.build.targets[...] = ...` without calling validate_forbidden_targets on the target name: reserved names are accepted', sn.ast)
@@ -1324,6 +1432,8 @@ def r5(ctx: RuleCtx) -> None:
         same_key = norm(L.inline_locals(info, left, n)) == norm(L.inline_locals(info, key, sn))
         if sn.id not in r and cfg.exit_return.id not in r and cfg.exit_raise.id in r and same_key:
             good.append(n)
+    if not dups:
+        raise Undecided('add_target: no membership test against self.build.targets was recognised')
     ctx.require(bool(good) and cfg.dominated_by_any(sn, good), 'the duplicate-id test (raising) dominates the store and tests the stored key', im, qn,
                 f'{norm(key)} in self.build.targets',
                 f'`self.build.targets[{norm(key)}] = ...` can be reached without the test `{norm(key)} in self.build.targets` having raised for an existing id: '
@@ -1396,13 +1506,17 @@ def r5(ctx: RuleCtx) -> None:
     cps = _param_names(cp.fn)
     prefixes = set()
     for c in ctors:
-        for arg in (c.args[1], c.args[3]):
+        for arg in (_elem_args(mod, c).get('outfilenames'), _elem_args(mod, c).get('infilenames')):
+            if arg is None:
+                continue
             a = L.inline_locals(cp, arg, cp.node_of(c))
             if isinstance(a, ast.JoinedStr) and len(a.values) == 2 and isinstance(a.values[0], ast.Constant) and isinstance(a.values[1], ast.FormattedValue) and \
                     isinstance(a.values[1].value, ast.Name) and a.values[1].value.id == cps[0]:
                 prefixes.add(a.values[0].value)
             elif isinstance(a, ast.BinOp) and isinstance(a.op, ast.Add) and isinstance(a.left, ast.Constant) and isinstance(a.right, ast.Name) and a.right.id == cps[0]:
                 prefixes.add(a.left.value)
+    if not prefixes:
+        raise Undecided('create_phony_target: the internal name is not built as <constant prefix> + <name>')
     ctx.require(prefixes == {pref}, f'create_phony_target builds its internal name with the prefix {pref!r} that validate_forbidden_targets rejects', mod,
                 f'{BACKEND}.create_phony_target', 'internal name prefix',
                 f'create_phony_target uses the internal prefix {sorted(prefixes)} but validate_forbidden_targets rejects {pref!r}: a user target can collide with the internal name')
@@ -1420,10 +1534,12 @@ def r5(ctx: RuleCtx) -> None:
         gi = None
         for c in _own_calls(f):
             name_e = None
-            if call_name(c) == 'self.create_phony_target' and c.args:
-                name_e = c.args[0]
-            elif _is_ctor(c, ELEMENT) and len(c.args) > 1 and isinstance(c.args[1], ast.Constant) and isinstance(c.args[1].value, str):
-                name_e = c.args[1]
+            if call_name(c) == 'self.create_phony_target':
+                name_e = _bound(mod, c, f'{BACKEND}.create_phony_target').get(_param_names(mod.func(f'{BACKEND}.create_phony_target'))[0])
+            elif _is_ctor(c, ELEMENT):
+                oe = _elem_args(mod, c).get('outfilenames')
+                if isinstance(oe, ast.Constant) and isinstance(oe.value, str):
+                    name_e = oe
             if name_e is None:
                 continue
             gi = gi or infos.get(q)
@@ -1542,12 +1658,13 @@ def _owners(info: L.FnInfo, e: ast.AST, at: Node, env: T.Dict[str, ast.AST], dep
 def _dir_alternatives(info: L.FnInfo, e: ast.AST, at: Node, depth: int = 0) -> T.List[T.Tuple[str, ast.AST, Node]]:
     """(kind own|private, argument expression, node where it is evaluated) for a directory expression."""
     out: T.List[T.Tuple[str, ast.AST, Node]] = []
-    if isinstance(e, ast.Call) and len(e.args) == 1 and not e.keywords:
+    if isinstance(e, ast.Call) and len(e.args) + len(e.keywords) == 1 and not any(isinstance(x, ast.Starred) for x in e.args) and all(k.arg for k in e.keywords):
         cn = call_name(e)
+        only = e.args[0] if e.args else e.keywords[0].value
         if cn in OWN_DIR:
-            out.append(('own', e.args[0], at))
+            out.append(('own', only, at))
         elif cn in PRIVATE_DIR:
-            out.append(('private', e.args[0], at))
+            out.append(('private', only, at))
     elif isinstance(e, ast.Name) and depth < 3:
         for d in info.reaching(e.id, at):
             if isinstance(d, L.Def) and d.kind == 'assign' and d.value is not None:
